@@ -109,6 +109,28 @@ FAULTS = {
     "break-outside-loop": ["break"],
     "continue-outside-loop": ["continue"],
 }
+
+# unknown name, systematically: the name ranges over a fresh identifier and every identifier-shaped word of the grammar
+# (a word that is neither declared nor usable as an expression must be rejected like any other unknown name), in every
+# expression position
+def grammar_words():
+    import os
+    from ..core import build as _b
+    with open(os.path.join(_b.REPO, "compiler", "src", "grammar.pest")) as f:
+        words = sorted(set(re.findall(r'"([A-Za-z_][A-Za-z_0-9]*)"', f.read())))
+    # single letters (escape characters, literal prefixes) are ordinary identifiers; the hosts declare some of them
+    return [w for w in words if len(w) > 1 and w not in ("nil", "true", "false", "self", "Self")]
+
+
+NAME_POSITIONS = {
+    "print": ["print {w}"], "operand": ["y1 = {w} + 1"], "right-operand": ["y2 = 1 + {w}"], "initialiser": ["y3 = {w}"],
+    "call": ["y4 = {w}(1)"], "argument": ["y5 = f({w})"], "element": ["y6 = [{w}]"], "condition": ["if {w} {{", "}}"],
+    "index": ["y7 = l[{w}]"], "receiver": ["y8 = {w}.len()"], "assert": ["assert {w}"], "last-in-block": ["if 1 == 1 {{", "\tprint {w}", "}}"],
+}
+for _w in ["qq"] + grammar_words():
+    for _pos, _tpl in NAME_POSITIONS.items():
+        FAULTS[f"unknown-name:{_w}:{_pos}"] = [t.format(w=_w) for t in _tpl]
+
 NEED_FN = {"break-outside-loop", "continue-outside-loop"}   # meaningless inside a loop host
 HOSTS = ["module", "fn", "closure", "method", "ctor", "elseif", "while", "from", "imported", "nested-block"]
 
@@ -173,7 +195,9 @@ class C03(Check):
     id = "C03"
     level = "fault_enumeration"
     rule = ("every (host context in {module level, function body, closure body, class method, constructor, else-if arm, while body, from body, "
-            "doubly nested block, imported module}) x (fault of a catalogue of 89 type-breaking edits: wrong-typed annotated initialiser, "
+            "doubly nested block, imported module}) x (fault of a catalogue of 89 type-breaking edits plus the unknown-name family = {fresh identifier, every "
+            "identifier-shaped word of grammar.pest} x 12 expression positions (print, operand, right operand, initialiser, callee, argument, list "
+            "element, condition, index, receiver, assert, last statement of a block): wrong-typed annotated initialiser, "
             "re-assignment with another type (variable, field, list element, map value, op-assignment), wrong argument type / count (function, "
             "method, constructor, built-in), wrong / missing return value, non-boolean condition (if, else-if, while, assert, !, &&), unknown "
             "name / type / field / method, call of a non-callable, index of a non-indexable, non-index index, wrong map key type, operators on "
@@ -227,7 +251,10 @@ class C03(Check):
             if not locs:
                 bad("no-position", f"diagnostic names no file:line:col: {text[-300:]}")
             else:
-                ok = any(os_base(f) == ffile and l1 <= int(ln) <= l2 for f, ln, _ in locs)
+                # a grammar word in an expression position is a syntax error; the parser reports it at the token where it
+                # gave up, which may be the first token of the following line
+                slack = 1 if fault.startswith("unknown-name:") and not fault.startswith("unknown-name:qq:") else 0
+                ok = any(os_base(f) == ffile and l1 <= int(ln) <= l2 + slack for f, ln, _ in locs)
                 if not ok:
                     bad("wrong-position", f"edited statement is at {ffile}:{l1}-{l2}; diagnostics point at {[(os_base(f), int(ln)) for f, ln, _ in locs][:4]}")
         return {"outcome": "rejected" if not viol else "VIOL", "viol": viol, "nontrivial": True,
